@@ -19,6 +19,9 @@ structure Cfg where
   objWhenEnded : Bool
   objWhenOpen : Bool
   derefGuarded : Bool
+  /-- [c01h10] processHeaders allocates the request's trailer map for every request whose HEADERS do not end the stream:
+  undeclared trailer fields are collected (and checked) like declared ones -/
+  mapWhenOpen : Bool := false
 deriving Repr, DecidableEq
 
 /-- the configuration of the code as it is, read off the regenerated structure -/
@@ -26,7 +29,8 @@ def cfgGen : Cfg :=
   { stateCheck := C08H2Trailers.srvBeforeTrailers.contains "st.state==stateHalfClosedRemote => streamError(id,ErrCodeStreamClosed)"
     objWhenEnded := C08H2Trailers.srvTrailerObjWhenEnded
     objWhenOpen := C08H2Trailers.srvTrailerObjWhenOpen
-    derefGuarded := C08H2Trailers.srvTrailerDerefGuarded }
+    derefGuarded := C08H2Trailers.srvTrailerDerefGuarded
+    mapWhenOpen := C08H2Trailers.srvTrailerMapWhenOpen }
 
 inductive MS where
   | idle | open | hcr | closed
@@ -76,7 +80,7 @@ def step (c : Cfg) (s : St) : Ev → St
     match s.ms with
     | .idle =>
       -- new stream (the first frame is a request head): registered; END_STREAM delivers at once, no trailer object
-      let s1 := { s with ms := if es then .hcr else .open, decl := decl, reg := true,
+      let s1 := { s with ms := if es then .hcr else .open, decl := decl || (!es && c.mapWhenOpen), reg := true,
                          tobj := if es then c.objWhenEnded else c.objWhenOpen }
       if es then deliver s1 "h" else s1
     | .closed => connErr s                      -- id <= maxClientStreamID: PROTOCOL_ERROR
